@@ -88,6 +88,57 @@ Qed.
 
 End Full.
 
+(** the same theorems for any machine whose completed runs have the [Outcome] shape (the
+    iterator-source machine of MachineIter.v in particular) *)
+Section FromOutcome.
+Variables (src : list V) (ops : list (op V)) (wl : list worker).
+
+Section FullO.
+Hypothesis Hout : Outcome (tlen src ops) (@nostop) wl.
+
+Theorem gen_collect_x : Permutation (res_colx (tpe src ops) wl) (seq_chain (stages_of ops) src).
+Proof. rewrite <- vals_all. apply (res_colx_perm (tpe src ops) Hout). reflexivity. Qed.
+
+Theorem gen_count : res_cnt (tpe src ops) wl = length (seq_chain (stages_of ops) src).
+Proof. rewrite <- vals_all. apply (res_cnt_eq (tpe src ops) Hout). reflexivity. Qed.
+
+Theorem gen_reduce (f : V -> V -> V) :
+  (forall a b c, f (f a b) c = f a (f b c)) -> (forall a b, f a b = f b a) ->
+  res_red (tpe src ops) f wl = reduce_list f (seq_chain (stages_of ops) src).
+Proof. intros Ha Hc. rewrite <- vals_all. apply (res_red_eq (tpe src ops) Hout); auto. Qed.
+
+Theorem gen_collect_merge (old : list V) :
+  res_col (tpe src ops) old wl = old ++ seq_chain (stages_of ops) src.
+Proof. rewrite <- vals_all. apply (res_col_eq (tpe src ops) Hout). reflexivity. Qed.
+
+Theorem gen_collect_bag (old : list V) :
+  (forall x, length (yields (trace (tpar src ops) x)) = 1) ->
+  res_map_col (tpe src ops) old (tlen src ops) wl = Some (old ++ seq_chain (stages_of ops) src).
+Proof.
+  intros H1. rewrite <- vals_all. apply (res_map_col_eq (tpe src ops) Hout); [reflexivity|].
+  intros i Hi. unfold vals, tpe, pe_of, tlen in *.
+  destruct (nth_error (tsrc src ops) i) as [x|] eqn:E; [apply H1|].
+  apply nth_error_None in E. lia.
+Qed.
+
+Theorem gen_calls :
+  Permutation (ps_clog (build src ops) ++ flat_map (w_calls_full (tpe src ops)) wl)
+              (seq_log (stages_of ops) src).
+Proof.
+  rewrite <- (build_calls_perm src ops). apply Permutation_app_head.
+  rewrite <- calls_all. apply (calls_full_perm (tpe src ops) Hout). reflexivity.
+Qed.
+End FullO.
+
+Section FindO.
+Hypothesis Hout : Outcome (tlen src ops) (stop_of (tpar src ops) (tsrc src ops)) wl.
+
+Theorem gen_find : res_find (tpe src ops) wl = find_in (tpe src ops) (seq 0 (tlen src ops)).
+Proof. apply (res_find_eq (tpe src ops) Hout). intros i. reflexivity. Qed.
+End FindO.
+
+End FromOutcome.
+
 (** ** short-circuit terminals *)
 Definition find_run r src ops sched : sys :=
   mrun r (tlen src ops) (stop_of (tpar src ops) (tsrc src ops)) sched.
